@@ -155,7 +155,8 @@ def check(ctx):
                         if nb is not None:
                             os.environ["SYMFC_VERIF_SOLVER_NBATCH"] = str(min(nb, P.N))
                         try:
-                            o = P.new(d, f)
+                            # the compact runs get the same numbers in Fortran memory order (a valid (n, N, 3) array)
+                            o = P.new(np.asfortranarray(d), np.asfortranarray(f)) if compact else P.new(d, f)
                             solve_with_batch(o, P, orders, compact, bs)
                         finally:
                             os.environ.pop("SYMFC_VERIF_SOLVER_NBATCH", None)
